@@ -1,7 +1,5 @@
 package main
 
-
-
 func init() {
 	props["C05"] = cfg("./c05", false, withAssume(
 		"pairs of sets that are equal under exactly one of {bitwise, Go ==} equality (+0 vs -0, NaN payloads) are not asserted either way",
